@@ -548,6 +548,9 @@ def value_equal(a, b):
         if any(f is None for f in fs):
             return None
         return z3.And(fs) if fs else z3.BoolVal(True)
+    # task-defined term-valued abstractions (one z3 term `t` of the same sort)
+    if type(a) is type(b) and hasattr(a, "t") and z3.is_expr(getattr(a, "t", None)) and z3.is_expr(getattr(b, "t", None)) and a.t.sort() == b.t.sort():
+        return a.t == b.t
     return None
 
 
